@@ -178,6 +178,7 @@ def pipeline_specs():
                 "constraints": st.integers(0, 5).flatmap(lambda k: st.lists(
                     con, min_size=(1, 2, 2, 2, 3, 3)[k], max_size=(1, 2, 2, 2, 3, 3)[k])),
                 "weak": gen.pick((None, 2), (0.125, 1), (0.5, 1)),
+                "early_export": gen.pick((False, 2), (True, 1)),
             }).map(_place_witness)
         return st.builds(lambda p, n: list(p[:n]), st.sampled_from(POOLS),
                          gen.pick((4, 3), (3, 2), (2, 1))).flatmap(for_labels)
@@ -338,7 +339,14 @@ def _run(spec, rec, qv):
 
     H = lib(gen.build, qv, kind, spec["objective"], what="build")
     preds, descr, anc_flags, clabels = [], [], [], set()
-    for c in spec["constraints"]:
+    for ci, c in enumerate(spec["constraints"]):
+        if ci and spec.get("early_export") and H.num_binary_variables <= 14:
+            # the README workflow is often iterated: look at the forms, add another constraint, convert again -
+            # what is judged below is the model as it is at the end
+            for form in ("to_pubo", "to_puso", "to_qubo", "to_quso"):
+                lib(getattr(H, form), what=form + "(intermediate)")
+            lib(H.solve_bruteforce, what="solve_bruteforce(intermediate)", expect=(KeyError,))
+            classes.add("intermediate_export")
         name, args, kw, pred, d, cl = _plan_constraint(c, labels, wbits, spin)
         clabels |= cl
         lam = frange + c["delta"]
